@@ -5,13 +5,13 @@
    any schedule of the four executor threads. *)
 From Coq Require Import ZArith List Bool.
 From RP Require Sched.Model Sched.NodeMap Sched.Inv Sched.SchedProofs Sched.RunProofs
-               Sched.LiveProofs Sched.CancelProofs.
+               Sched.LiveProofs Sched.CancelProofs Sched.ConsProofs Sched.CancelRunProofs.
 From RP Require Exec.Model Exec.Oracle Exec.Local Exec.Proj Exec.Proofs Exec.CancelProofs.
 Import ListNotations.
 
 Module SchedSide.
 Import RP.Sched.Model RP.Sched.NodeMap RP.Sched.Inv RP.Sched.SchedProofs RP.Sched.RunProofs
-       RP.Sched.LiveProofs RP.Sched.CancelProofs.
+       RP.Sched.LiveProofs RP.Sched.CancelProofs RP.Sched.ConsProofs RP.Sched.CancelRunProofs.
 Open Scope Z_scope.
 
 (* a named task that is waiting is taken out of the wait pool ... *)
@@ -90,6 +90,52 @@ Example C08_nonvacuous :
   cancel_uids [5; 9; 1] wp [] =
   ([(0, [mkReq 2 1 1 0 0 0 0 0 None false None None]); (3, [])], [Canceled 5; Canceled 1]).
 Proof. vm_compute. reflexivity. Qed.
+
+(* whole histories: after ANY history of arrivals (unique uids), cancel requests
+   -- delivered at once (CancelMsg) or in two halves with the loop running in
+   between (CancelReg = the uids are put on the cancel list, CancelQ = the CANCEL
+   item is put on the scheduler queue), in any order --, releases and loop
+   iterations with any bisect strategy: a uid that was registered for
+   cancellation and still waits in a pool has its CANCEL item pending in the
+   queue, or belongs to a request of which only the registration half has
+   happened ([half]: the ghost multiset of such uids) *)
+Theorem C08_named_not_waiting_any_history :
+  forall c ns0 ops w' u,
+    run c (init_world ns0) ops = Some w' -> NoDup (arrivals ops) ->
+    In u (registered ops []) -> In u (P (waitpool (st w'))) ->
+    In u (QC (q_sched w')) \/ In u (half ops []).
+Proof. exact named_not_waiting. Qed.
+Print Assumptions C08_named_not_waiting_any_history.
+
+(* ... hence after a loop iteration no task named by a completely delivered
+   request waits -- whether it waited before the request, was pulled from the
+   queue in the same drain as the CANCEL item, or arrived later *)
+Theorem C08_named_not_waiting_after_iteration :
+  forall c ns0 ops strat w' u,
+    run c (init_world ns0) (ops ++ [Iterate strat]) = Some w' -> NoDup (arrivals ops) ->
+    In u (registered ops []) -> ~ In u (half ops []) ->
+    ~ In u (P (waitpool (st w'))).
+Proof. exact named_not_waiting_after_iteration. Qed.
+Print Assumptions C08_named_not_waiting_after_iteration.
+
+(* non-vacuity, and why the order of the two halves matters: task 2 cannot fit
+   while task 1 holds the node.  Registration first (the code's order): task 2
+   is canceled when it is put into the pool.  Queue item first (the order a
+   regression could produce): the CANCEL item is consumed while task 2 is not
+   in the pool yet, the later registration is never looked at again, task 2
+   waits forever -- and the theorem does not apply, task 2 stays in [half] *)
+Example C08_split_request_orders :
+  let c := mkCfg 2 0 0 0 true in
+  let ns := [mkNode 0 [Free; Free] [] 0 0] in
+  let t u cores := mkReq u 1 cores 0 0 0 0 0 None false None None in
+  let pre := [Arrive [t 1 2]; Iterate []; Arrive [t 2 1]] in
+  (match run c (init_world ns) (pre ++ [CancelReg [2]; Iterate []; CancelQ [2]; Iterate []]) with
+   | Some w => (P (waitpool (st w)), half (pre ++ [CancelReg [2]; Iterate []; CancelQ [2]]) [])
+   | None => ([0], [0]) end) = ([], []) /\
+  (match run c (init_world ns) (pre ++ [CancelQ [2]; Iterate []; CancelReg [2]; Iterate [[(2, true)]]]) with
+   | Some w => (P (waitpool (st w)), half (pre ++ [CancelQ [2]; Iterate []; CancelReg [2]]) [])
+   | None => ([0], [0]) end) = ([2], [2]).
+Proof. vm_compute. split; reflexivity. Qed.
 
 End SchedSide.
 
